@@ -33,6 +33,8 @@ Shapes == <<
   [name |-> "mlstrblank", lines |-> << L("write(\"a", 0, 0, 0, 0, 1, 0), L("", 0, 0, 0, 0, 0, 0), L("  ", 0, 0, 0, 0, 0, 0), L("b\")", 0, 0, 0, 0, 1, 0) >>, out |-> "a\n\n  \nb", val |-> "nil"],
   [name |-> "arrayblank", lines |-> << L("y = [1,", 0, 0, 1, 0, 0, 0), L("", 0, 0, 0, 0, 0, 0), L("2]", 0, 0, 0, 1, 0, 0) >>, out |-> "", val |-> "[1, 2]"],
   [name |-> "blockblank", lines |-> << L("if true {", 1, 0, 0, 0, 0, 0), L("", 0, 0, 0, 0, 0, 0), L("write(\"G\")", 0, 0, 0, 0, 2, 0), L("", 0, 0, 0, 0, 0, 0), L("}", 0, 1, 0, 0, 0, 0) >>, out |-> "G", val |-> "nil"],
+  [name |-> "blockmlstr", lines |-> << L("if true {", 1, 0, 0, 0, 0, 0), L("write(\"p", 0, 0, 0, 0, 1, 0), L("q\")", 0, 0, 0, 0, 1, 0), L("}", 0, 1, 0, 0, 0, 0) >>, out |-> "p\nq", val |-> "nil"],
+  [name |-> "arraymlstr", lines |-> << L("write([\"one", 0, 0, 1, 0, 1, 0), L("two\", 1][0])", 0, 0, 1, 2, 1, 0) >>, out |-> "one\ntwo", val |-> "nil"],
   [name |-> "blank",     lines |-> << L("", 0, 0, 0, 0, 0, 0) >>, out |-> "", val |-> ""],
   [name |-> "comment",   lines |-> << L("; just a note", 0, 0, 0, 0, 0, 0) >>, out |-> "", val |-> ""],
   [name |-> "semi",      lines |-> << L("write(\";\")", 0, 0, 0, 0, 2, 0) >>, out |-> ";", val |-> "nil"]
